@@ -1099,6 +1099,7 @@ func runC13(c *Ctx) {
 		c.Eval(len(ex) > 2, fmt.Sprint(input))
 	})
 
+	runC13S3(c, K, hasTU, hasTS) // round s3: multi-access methods under interleavings, real-time order (c13_s3.go)
 	// E. free-running stress (supporting test): 15 goroutines own one flag bit each, one owns last.
 	c.Cases("stress", c.N(1, 3), func(r *Rng, _ int) {
 		iters := c.N(30000, 1500000)
